@@ -176,14 +176,34 @@ pub fn scaled_cases(thorough: bool) -> (Vec<Case>, Value) {
             }
         }
     }
+    // M many files / many runs: ids beyond one byte, long offset lists, 16 recipients
+    let many_files = Program::new((0..300).map(|i| Op::Add(i, i % 5)).collect(), Entropy::Pattern);
+    let mut rr: Vec<Op> = (0..20).map(Op::Start).collect();
+    for round in 0..12 {
+        for i in 0..20 {
+            rr.push(Op::Append(i, 1 + (i + round) % 7));
+        }
+    }
+    rr.extend((0..20).rev().map(Op::End));
+    let round_robin = Program::new(rr, Entropy::Pattern);
+    for cfg in cfgs_for(&[5]) {
+        cases.push(Case { p: many_files.clone(), cfg, keys: vec![0], family: "M" });
+        cases.push(Case { p: round_robin.clone(), cfg, keys: vec![0], family: "M" });
+    }
+    for l in [L4::Encrypt, L4::Both] {
+        let p = Program::new(vec![Op::Add(0, 3 * CHUNK)], Entropy::Pattern);
+        cases.push(Case { p: p.clone(), cfg: Cfg { layers: l, level: 5, recipients: 16 }, keys: vec![15], family: "R" });
+        cases.push(Case { p, cfg: Cfg { layers: l, level: 5, recipients: 16 }, keys: vec![0], family: "R" });
+    }
     let bounds = json!({
+        "M": "300 files added back to back; 20 files started together then fed round-robin for 12 rounds (240 runs) and ended in reverse order",
         "A1": format!("one file, one piece, every size 0..={} x 4 layer combos x levels {:?}", families::a1_max(), lv_a1),
         "A2": "one file, two pieces (s1 in 0..=chunk+8, s2 in 0..=chunk+8 and block-1..block+2)",
         "A3": "two interleaved files S A0(x) S A1(y) A0(z), x,z in 0..=chunk+8, y in {0,1,chunk+1}",
         "B": format!("layers none/encrypt: all valid programs with <= {mf} files, <= {mo} ops, <= {ma} appends, sizes {:?}, closed in creation and reverse order; layers compress/both: same with <= {cmo} ops, <= {cma} appends", sizes),
         "B3": "all valid programs with up to 3 (quick) / 4 (thorough) appends of sizes {1, chunk+1, block+1}: <= 8/9 ops for layers none/encrypt, <= 6/7 ops and 3 appends for compress/both",
         "N": "names {empty, 'a', unicode with '/', 65536 bytes} in every position of a 3-file interleaved program",
-        "R": "1..3 recipients, each reading alone and after two foreign candidate keys",
+        "R": "1..3 recipients, each reading alone and after two foreign candidate keys; 16 recipients read by the first and the last",
     });
     (cases, bounds)
 }
